@@ -242,6 +242,7 @@ def handwritten():
         ("m0 = { $n ->\n [1] exact\n [one] cat\n *[other] o\n }\nm1 = { $n ->\n [one] cat\n [1] exact\n *[other] o\n }\nm2 = { NUMBER($n, type: \"ordinal\") ->\n [one] st\n [two] nd\n [few] rd\n *[other] th\n }\n", "%s=i1" % hx("n")),
         ("m0 = { $n ->\n [1] exact\n [one] cat\n *[other] o\n }\nm1 = { NUMBER($n, minimumFractionDigits: 1) ->\n [one] cat\n *[other] o\n }\nm2 = { 1.0 ->\n [1] exact\n [one] cat\n *[other] o\n }\n", "%s=t%s" % (hx("n"), hx("1.0"))),
         ("m0 = { $n ->\n [one] a\n *[other] b\n } { NUMBER($n, minimumFractionDigits: 1) ->\n [one] a\n *[other] b\n } { $n ->\n [one] a\n *[other] b\n }\n-t0 = { $n } { $n ->\n [one] a\n *[other] b\n }\nm1 = { -t0(n: 1.0) } { -t0(n: 1) } { -t0(n: 1.50) }\n", "%s=i1" % hx("n")),
+        ("m0 = { $x }\nm1 = { $n }\nm2 = { $zz }\nm3 = { \"lit\" }\nm4 = { 1.50 }\nm5 = { IDENT($x) }\n-t0 = { $x }\nm6 = { -t0(x: \"tx\") }\n", "%s=s%s&%s=n1.5/-" % (hx("x"), hx("abc"), hx("n"))),
         ("m0 = { FAIL() } { NONE() } { CUSTOM(\"q\") } { IDENT($x) } { IDENT() } { ARGS(1, \"s\", $x, x: 1) }\n", "%s=c%s" % (hx("x"), hx("cv"))),
         ("m0 = { \"\\u0041\\\\\" } { \"\\uD800\" } {\"é\"}\n", "."),
         ("m0 = { $x ->\n [a] A\n [b] B\n }\n", "."),
